@@ -24,9 +24,12 @@ props! {
     "c09" c09,
     "c10" c10,
     "c11" c11,
+    "c12" c12,
     "c13" c13,
     "c14" c14,
     "c16" c16,
     "c17" c17,
+    "c18" c18,
+    "c19" c19,
     "c20" c20,
 }
